@@ -148,11 +148,92 @@ Probes2(t) ==
 Params2 == {[fam |-> "f2", L |-> <<s0, oth>>, p |-> p] : s0 \in S0_2, oth \in Others2, p \in (IF Deep THEN 0 .. 3 ELSE {0, 1})}
 
 ---------------------------------------------------------------------------
-\* Whole fonts, 1: every set of encoding records over ten platform/encoding pairs (two of them
-\* unsupported); record k maps 'A' to glyph k through a subtable of a format typical for the pair.
-Pairs == <<<<0, 0>>, <<0, 3>>, <<0, 4>>, <<1, 0>>, <<1, 1>>, <<3, 0>>, <<3, 1>>, <<3, 2>>, <<3, 4>>, <<3, 10>>>>
+SDelta(x) == LET m == x % 65536 IN IF m >= 32768 THEN m - 65536 ELSE m
+Seg(s, e, d, r) == [s |-> s, e |-> e, delta |-> d, ro |-> r]
+\* Format 4, hand-laid tables (family "f4x"): what Table4 never produces.  idRangeOffset shared
+\* between segments, pointing into another segment's slice, at the very end of the table, one past
+\* it, odd, into the idRangeOffset array itself; unused glyphIdArray entries; a final segment that
+\* maps real characters; no final segment; and segment lists that are unsorted / overlapping
+\* (Dev_UnsortedAny).  X4(v, d1, d2): variant v with idDelta d1 / d2 on the first two segments.
+T4(segs, gia) == [fmt |-> 4, segs |-> segs, gia |-> gia]
+RO4(n, j, k) == 2 * (n - (j - 1) + k)        \* idRangeOffset of segment j (1-based, of n) whose first code uses glyphIdArray[k]
+Fin4 == Seg(65535, 65535, 1, 0)
+GX4 == <<5, 0, 65535, 300, 7, 1>>
+X4(v, d1, d2) ==
+  CASE v = 1  -> T4(<<Seg(65, 68, d1, RO4(3, 1, 0)), Seg(97, 100, d2, RO4(3, 2, 0)), Fin4>>, SubSeq(GX4, 1, 4))       \* one slice, two segments
+    [] v = 2  -> T4(<<Seg(65, 68, d1, RO4(3, 1, 0)), Seg(97, 100, d2, RO4(3, 2, 2)), Fin4>>, GX4)                      \* overlapping slices
+    [] v = 3  -> T4(<<Seg(65, 66, d1, RO4(3, 1, 4)), Seg(97, 100, d2, RO4(3, 2, 0)), Fin4>>, GX4)                      \* slices in reverse order
+    [] v = 4  -> T4(<<Seg(65, 68, d1, RO4(3, 1, 2)), Seg(97, 98, d2, RO4(3, 2, 5)), Fin4>>, GX4)                       \* last entry; one past the end
+    [] v = 5  -> T4(<<Seg(65, 68, d1, RO4(3, 1, 0) + 1), Seg(97, 100, d2, RO4(3, 2, 2)), Fin4>>, GX4)                  \* odd idRangeOffset
+    [] v = 6  -> T4(<<Seg(65, 68, d1, 2), Seg(97, 100, d2, RO4(3, 2, 2)), Fin4>>, GX4)                                 \* into idRangeOffset[]
+    [] v = 7  -> T4(<<Seg(65, 67, d1, RO4(3, 1, 1)), Seg(97, 100, d2, 0), Fin4>>, SubSeq(GX4, 1, 5))                   \* unused entries around
+    [] v = 8  -> T4(<<Seg(65, 68, d1, 0), Seg(65532, 65535, d2, RO4(2, 2, 0))>>, <<40, 41, 0, 0>>)                     \* final segment maps characters
+    [] v = 9  -> T4(<<Seg(65, 68, d1, 65535), Seg(97, 100, d2, RO4(3, 2, 0)), Fin4>>, SubSeq(GX4, 1, 4))               \* Fontographer + glyphIdArray
+    [] v = 10 -> T4(<<Seg(0, 0, d1, RO4(3, 1, 0)), Seg(1, 1, d2, RO4(3, 2, 0)), Fin4>>, <<300>>)                       \* code 0 through the array
+    [] v = 11 -> T4(<<Seg(65, 68, d1, 0), Seg(97, 100, d2, RO4(2, 2, 0))>>, SubSeq(GX4, 1, 4))                         \* no final 0xFFFF segment
+    [] v = 12 -> T4(<<Seg(65, 68, d1, RO4(3, 1, 0)), Seg(65532, 65534, d2, RO4(3, 2, 3)), Seg(65535, 65535, d1, RO4(3, 3, 5))>>, GX4)
+    \* unsorted / overlapping
+    [] v = 20 -> T4(<<Seg(97, 100, d1, 0), Seg(65, 68, d2, 0), Fin4>>, <<>>)                                           \* descending
+    [] v = 21 -> T4(<<Seg(65, 90, d1, 0), Seg(69, 72, d2, RO4(3, 2, 0)), Fin4>>, SubSeq(GX4, 1, 4))                    \* nested
+    [] v = 22 -> T4(<<Seg(65, 68, d1, 0), Seg(65, 68, d2, RO4(3, 2, 0)), Fin4>>, SubSeq(GX4, 1, 4))                    \* same range twice
+    [] v = 23 -> T4(<<Seg(65, 80, d1, 0), Seg(75, 96, d2, 0), Fin4>>, <<>>)                                            \* partial overlap
+    [] v = 24 -> T4(<<Fin4, Seg(65, 68, d1, 0), Seg(97, 100, d2, RO4(3, 3, 0))>>, SubSeq(GX4, 1, 4))                   \* final segment first
+    [] v = 25 -> T4(<<Seg(69, 72, d2, RO4(3, 1, 0)), Seg(65, 90, d1, 0), Fin4>>, SubSeq(GX4, 1, 4))                    \* enclosing segment second
+    [] v = 26 -> T4(<<Seg(65, 68, d1, 0), Seg(0, 65535, d2, 0)>>, <<>>)                                                \* everything segment
+DX4 == IF Deep THEN {0, 1, -1, 32767, -32768, -65} ELSE {0, 1, -32768, -65}
+VX4 == (1 .. 12) \cup (20 .. 26)
+ParamsX4 == {[fam |-> "f4x", L |-> <<d1, d2>>, p |-> v] : v \in VX4, d1 \in DX4, d2 \in DX4}
+
+---------------------------------------------------------------------------
+\* Format 12, group lists as written (family "f12x"): nested, partially overlapping, identical
+\* ranges with different glyphs, descending order, a group whose glyph ids run past 65535.
+GX12 == << [s |-> 65, e |-> 70, g |-> 10], [s |-> 68, e |-> 75, g |-> 100], [s |-> 65, e |-> 70, g |-> 200],
+           [s |-> 60, e |-> 90, g |-> 300], [s |-> 70, e |-> 70, g |-> 7], [s |-> 65536, e |-> 65540, g |-> 1],
+           [s |-> 65538, e |-> 65538, g |-> 50], [s |-> 0, e |-> 0, g |-> 9], [s |-> 1114111, e |-> 1114111, g |-> 2],
+           [s |-> 200, e |-> 210, g |-> 65530] >>
+NX12 == IF Deep THEN 10 ELSE 6      \* groups used in the length-3 lists
+ParamsX12 == {[fam |-> "f12x", L |-> <<a, b>>, p |-> 0] : a \in 1 .. 10, b \in (1 .. 10)}
+             \cup {[fam |-> "f12x", L |-> <<a, b, c>>, p |-> 0] : a \in 1 .. NX12, b \in 1 .. NX12, c \in 1 .. NX12}
+DistinctIx(L) == \A i, j \in 1 .. Len(L) : i # j => L[i] # L[j]
+TableX12(L) == [fmt |-> 12, groups |-> [j \in 1 .. Len(L) |-> GX12[L[j]]]]
+
+---------------------------------------------------------------------------
+\* Format 2, four subHeaders (family "f2x"): lead bytes assigned to subHeaders in any order, two
+\* lead bytes sharing one subHeader, glyph slices that overlap (idRangeOffset into the previous
+\* subHeader's slice), empty subHeaders, firstCode + entryCount = 256, idDelta on subHeader 0.
+S0_2x == {<<0, 256>>, <<32, 96>>, <<65, 1>>, <<200, 56>>}
+R_2x == { << <<64, 3>>, <<161, 2>>, <<0, 1>> >>, << <<254, 2>>, <<0, 0>>, <<255, 1>> >>,
+          << <<0, 256>>, <<64, 3>>, <<161, 94>> >>, << <<161, 2>>, <<161, 2>>, <<64, 63>> >> }
+Perm_2x == {<<1, 2, 3>>, <<3, 1, 2>>, <<2, 3, 1>>}
+D2x == <<0, 1, -1, 32767, -32768>>
+GV2x == <<0, 9, 65535, 300, 1>>
+Table2x(s0, r, perm, ov, p) ==
+  LET rng(k) == IF k = 0 THEN s0 ELSE r[k]
+      back(k) == IF k >= 2 THEN (IF ov < rng(k - 1)[2] THEN ov ELSE rng(k - 1)[2]) ELSE 0
+      start[k \in 0 .. 3] == IF k = 0 THEN 0 ELSE start[k - 1] + rng(k - 1)[2] - back(k)
+      len == Max({start[k] + rng(k)[2] : k \in 0 .. 3})
+      ro(k) == 8 * 4 + 2 * start[k] - (8 * k + 6)
+      delta(k) == IF k = 0 THEN (IF p % 2 = 1 THEN D2x[(p % 5) + 1] ELSE 0) ELSE D2x[((p + k) % 5) + 1]
+      leadSub(b) == IF b = 129 THEN perm[1] ELSE IF b = 161 THEN perm[2] ELSE IF b = 254 THEN perm[3]
+                    ELSE IF b = 144 THEN perm[1] ELSE 0
+  IN [fmt |-> 2,
+      keys |-> [i \in 1 .. 256 |-> 8 * leadSub(i - 1)],
+      subs |-> [k \in 1 .. 4 |-> [first |-> rng(k - 1)[1], count |-> rng(k - 1)[2], delta |-> delta(k - 1), ro |-> ro(k - 1)]],
+      gia |-> [m \in 1 .. len |-> GV2x[((m + p) % 5) + 1]]]
+ParamsX2 == {[fam |-> "f2x", L |-> <<s0, r, perm, ov>>, p |-> p] :
+               s0 \in S0_2x, r \in R_2x, perm \in Perm_2x, ov \in {0, 1, 2}, p \in (IF Deep THEN 0 .. 4 ELSE {0, 1})}
+
+---------------------------------------------------------------------------
+\* Whole fonts, 1: sets of encoding records over thirteen platform/encoding pairs (two of them
+\* unsupported, one - (0, 5), a format 14 subtable - not a character map); record k maps 'A' to glyph
+\* k through a subtable of a format typical for the pair.  quick: every set of up to four records
+\* and every set over the ten pairs of round 1; thorough: all 8192 sets.
+Pairs == <<<<0, 0>>, <<0, 1>>, <<0, 3>>, <<0, 4>>, <<0, 5>>, <<0, 6>>, <<1, 0>>, <<1, 1>>, <<3, 0>>, <<3, 1>>, <<3, 2>>,
+          <<3, 4>>, <<3, 10>>>>
+OldPairIx == {1, 3, 4, 7, 8, 9, 10, 11, 12, 13}
 FmtOfPair(pe) ==
-  CASE pe = <<0, 0>> -> 6  [] pe = <<0, 3>> -> 4  [] pe = <<0, 4>> -> 12 [] pe = <<1, 0>> -> 0
+  CASE pe = <<0, 0>> -> 6  [] pe = <<0, 1>> -> 4  [] pe = <<0, 5>> -> 14 [] pe = <<0, 6>> -> 12
+    [] pe = <<0, 3>> -> 4  [] pe = <<0, 4>> -> 12 [] pe = <<1, 0>> -> 0
     [] pe = <<1, 1>> -> 0  [] pe = <<3, 0>> -> 4  [] pe = <<3, 1>> -> 4  [] pe = <<3, 2>> -> 2
     [] pe = <<3, 4>> -> 2  [] pe = <<3, 10>> -> 12
 OneGlyph(fmt, code, g) ==
@@ -163,15 +244,15 @@ OneGlyph(fmt, code, g) ==
                                           [s |-> 65535, e |-> 65535, delta |-> 1, ro |-> 0]>>, gia |-> <<>>]
     [] fmt = 6  -> [fmt |-> 6, first |-> code, gia |-> <<g>>]
     [] fmt = 12 -> [fmt |-> 12, groups |-> <<[s |-> code, e |-> code, g |-> g]>>]
+    [] fmt = 14 -> [fmt |-> 14]        \* Unicode variation sequences: no character map (encoded with no selector records)
 PrefRecs(S) ==
   LET ix == Asc(S) IN
   [k \in 1 .. Len(ix) |-> [p |-> Pairs[ix[k]][1], e |-> Pairs[ix[k]][2],
                            t |-> OneGlyph(FmtOfPair(Pairs[ix[k]]), 65, k)]]
-ParamsPref == {[fam |-> "pref", L |-> S, p |-> 0] : S \in SUBSET (1 .. Len(Pairs))}
+ParamsPref == {[fam |-> "pref", L |-> S, p |-> 0] :
+                 S \in {T \in SUBSET (1 .. Len(Pairs)) : Deep \/ Cardinality(T) <= 4 \/ T \subseteq OldPairIx}}
 
 \* Whole fonts, 2: encoding dispatch.  One record (or the record that matters) per case.
-SDelta(x) == LET m == x % 65536 IN IF m >= 32768 THEN m - 65536 ELSE m
-Seg(s, e, d, r) == [s |-> s, e |-> e, delta |-> d, ro |-> r]
 SymPUA  == [fmt |-> 4, segs |-> <<Seg(61472, 61695, 4067, 0), Seg(65535, 65535, 1, 0)>>, gia |-> <<>>]   \* F020 -> 3
 SymLow  == [fmt |-> 4, segs |-> <<Seg(32, 255, -29, 0), Seg(65535, 65535, 1, 0)>>, gia |-> <<>>]          \* 20 -> 3
 SymZero == [fmt |-> 4, segs |-> <<Seg(0, 255, 1, 0), Seg(65535, 65535, 1, 0)>>, gia |-> <<>>]             \* 00 -> 1
@@ -187,9 +268,17 @@ Big5T2 ==
       subs |-> [k \in 1 .. 6 |-> [first |-> raw[k][1], count |-> raw[k][2], delta |-> 0,
                                   ro |-> 8 * 6 + 2 * raw[k][3] - (8 * (k - 1) + 6)]],
       gia |-> [m \in 1 .. 136 |-> m]]
-Big5T4 == [fmt |-> 4, segs |-> <<Seg(32, 126, 0, 0), Seg(41280, 41283, SDelta(300 - 41280), 0), Seg(42606, 42606, SDelta(7 - 42606), 0),
+Big5T4 == [fmt |-> 4, segs |-> <<Seg(32, 255, 0, 0), Seg(41280, 41283, SDelta(300 - 41280), 0), Seg(41393, 41393, SDelta(400 - 41393), 0),
+                                 Seg(41425, 41426, SDelta(410 - 41425), 0), Seg(41560, 41560, SDelta(420 - 41560), 0),
+                                 Seg(42606, 42606, SDelta(7 - 42606), 0),
                                  Seg(65535, 65535, 1, 0)>>, gia |-> <<>>]
-Big5Probes == {65, 126, 22909, 949, 12290, 19968, 12288, 40856, 2350, 196, MaxCode}
+Big5Probes == {65, 126, 22909, 949, 12290, 19968, 12288, 40856, 2350, 196, MaxCode, 167, 215, 176, 247}
+\* Symbol / Mac Roman records whose subtable is not of the usual format
+Sym0  == [fmt |-> 0, gia |-> [i \in 1 .. 256 |-> ((i - 1) % 200) + 1]]
+Sym6  == [fmt |-> 6, first |-> 61472, gia |-> [i \in 1 .. 224 |-> i + 2]]
+Sym12 == [fmt |-> 12, groups |-> <<[s |-> 32, e |-> 126, g |-> 3], [s |-> 61472, e |-> 61695, g |-> 300]>>]
+Mac4  == [fmt |-> 4, segs |-> <<Seg(0, 255, 1, 0), Seg(65535, 65535, 1, 0)>>, gia |-> <<>>]
+Mac12 == [fmt |-> 12, groups |-> <<[s |-> 0, e |-> 255, g |-> 1], [s |-> 8364, e |-> 8364, g |-> 999]>>]
 UniProbes == {0, 65, 66, 255, 256, 65535, 65536, 65601, 128512, MaxCode}
 Rec(p, e, t) == [p |-> p, e |-> e, t |-> t]
 Dispatch ==
@@ -197,11 +286,19 @@ Dispatch ==
   \cup {[recs |-> <<Rec(1, 0, t)>>, os2 |-> f, probes |-> MacProbes] : t \in {Mac0, Mac6}, f \in {-1, 32, 61472}}
   \cup {[recs |-> <<Rec(3, 4, t)>>, os2 |-> 32, probes |-> Big5Probes] : t \in {Big5T2, Big5T4}}
   \cup {[recs |-> <<Rec(pe[1], pe[2], t)>>, os2 |-> 32, probes |-> UniProbes] :
-          pe \in {<<3, 1>>, <<3, 10>>, <<0, 3>>, <<0, 4>>},
+          pe \in {<<3, 1>>, <<3, 10>>, <<0, 0>>, <<0, 1>>, <<0, 2>>, <<0, 3>>, <<0, 4>>, <<0, 6>>},
           t \in {OneGlyph(0, 65, 2), OneGlyph(2, 65, 2), OneGlyph(4, 65, 2), OneGlyph(6, 65, 2),
                  [fmt |-> 10, first |-> 65536, gia |-> <<5, 6>>], Table12Big,
                  [fmt |-> 12, groups |-> <<[s |-> 65, e |-> 66, g |-> 1], [s |-> 128512, e |-> 128512, g |-> 9]>>]}}
-ParamsDispatch == {[fam |-> "disp", L |-> d, p |-> 0] : d \in Dispatch}
+DispatchX ==
+  {[recs |-> <<Rec(3, 0, t)>>, os2 |-> f, probes |-> SymProbes] : t \in {Sym0, Sym6, Sym12}, f \in {-1, 0, 61472}}
+  \cup {[recs |-> <<Rec(1, 0, t)>>, os2 |-> f, probes |-> MacProbes] : t \in {Mac4, Mac12}, f \in {-1, 61472}}
+  \* the variation-sequences record beside one legacy record: the legacy record is the character map
+  \cup {[recs |-> <<Rec(0, 5, [fmt |-> 14]), Rec(3, 0, t)>>, os2 |-> 61472, probes |-> SymProbes] : t \in {SymPUA}}
+  \cup {[recs |-> <<Rec(0, 5, [fmt |-> 14]), Rec(1, 0, t)>>, os2 |-> -1, probes |-> MacProbes] : t \in {Mac0}}
+  \cup {[recs |-> <<Rec(0, 5, [fmt |-> 14]), Rec(3, 4, t)>>, os2 |-> 32, probes |-> Big5Probes] : t \in {Big5T4}}
+  \cup {[recs |-> <<Rec(0, 5, [fmt |-> 14]), Rec(0, 6, t)>>, os2 |-> 32, probes |-> UniProbes] : t \in {Table12Big}}
+ParamsDispatch == {[fam |-> "disp", L |-> d, p |-> 0] : d \in Dispatch \cup DispatchX}
 
 ---------------------------------------------------------------------------
 IsFont(q) == q.fam \in {"pref", "disp"}
@@ -214,12 +311,15 @@ TableOf(q) ==
     [] q.fam = "f6"     -> TableTrim(6, q.L[1], q.L[2], q.p)
     [] q.fam = "f10"    -> TableTrim(10, q.L[1], q.L[2], q.p)
     [] q.fam = "f2"     -> Table2(q.L[1], q.L[2], q.p)
+    [] q.fam = "f4x"    -> X4(q.p, q.L[1], q.L[2])
+    [] q.fam = "f12x"   -> TableX12(q.L)
+    [] q.fam = "f2x"    -> Table2x(q.L[1], q.L[2], q.L[3], q.L[4], q.p)
 ProbesOf(q, t) ==
-  CASE q.fam = "f4"  -> Probes4(t)
-    [] q.fam \in {"f12", "f12big"} -> Probes12(t)
+  CASE q.fam \in {"f4", "f4x"}  -> Probes4(t)
+    [] q.fam \in {"f12", "f12big", "f12x"} -> Probes12(t)
     [] q.fam = "f0"  -> Probes0
     [] q.fam \in {"f6", "f10"} -> ProbesTrim(t)
-    [] q.fam = "f2"  -> Probes2(t)
+    [] q.fam \in {"f2", "f2x"}  -> Probes2(t)
 
 \* Enumerations of large tables are requested for a few cases only (the judge has to
 \* enumerate them too).
@@ -239,6 +339,7 @@ FirstOf(os2) == IF os2 < 0 THEN 32 ELSE os2
 ---------------------------------------------------------------------------
 Init == /\ \/ par \in Params4 \/ par \in Params12 \/ par \in Params0 \/ par \in Params6 \/ par \in Params10
            \/ par \in Params2 \/ par \in ParamsPref \/ par \in ParamsDispatch
+           \/ par \in ParamsX4 \/ par \in {q \in ParamsX12 : DistinctIx(q.L)} \/ par \in ParamsX2
         /\ done = FALSE
 Next == done = FALSE /\ done' = TRUE /\ UNCHANGED par
 Spec == Init /\ [][Next]_vars
@@ -249,9 +350,10 @@ SubOK(q) ==
   /\ GlyphRange(t, P)
   /\ SearchIsLinear(t, P)
   /\ (EnumWanted(q, t) /\ SizeOf(t) <= 600) => EnumerateEqualsLookups(t, P)
-  /\ t.fmt = 4  => Sorted4(t.segs) /\ t.segs[Len(t.segs)].e = 65535
-  /\ t.fmt = 12 => Sorted12(t.groups)
-  /\ \A c \in P : BAD \notin Accept(t, c)          \* generated tables are well formed
+  /\ UnsortedIsConservative(t, P)
+  /\ q.fam = "f4"  => Sorted4(t.segs) /\ t.segs[Len(t.segs)].e = 65535
+  /\ q.fam = "f12" => Sorted12(t.groups)
+  /\ q.fam \notin {"f4x", "f12x"} => \A c \in P : BAD \notin Accept(t, c)     \* these tables are well formed
   /\ \A c \in P : c > 65535 /\ t.fmt \in {0, 2, 4, 6} => Map(t, c) = 0
 FontOK(q) ==
   LET recs == RecsOf(q) IN
@@ -264,7 +366,7 @@ TablesOK == (done /\ par.fam = "f0" /\ par.p = 0) => MacRomanInverse
 SubCase(q) ==
   LET t == TableOf(q)  P == Asc(ProbesOf(q, t)) IN
   [kind |-> "sub", fam |-> q.fam, t |-> t, enum |-> EnumWanted(q, t),
-   probes |-> [k \in 1 .. Len(P) |-> <<P[k], SetToSeq(AcceptSub(t, P[k])), Branch(t, P[k])>>]]
+   probes |-> [k \in 1 .. Len(P) |-> <<P[k], SetToSeq(AcceptSubU(t, P[k])), BranchU(t, P[k])>>]]
 FontCase(q) ==
   LET recs == RecsOf(q)
       sel  == Preferred(recs)
